@@ -50,7 +50,7 @@ type Expect struct {
 	MustHave []string `json:"must_have"`
 }
 
-var effectRe = regexp.MustCompile(`(^|\.)(Set[A-Z]\w*|set[A-Z]\w*|delete[A-Z]\w*|Delete[A-Z]\w*|CallPacket|CallEVM\w*|WriteAcknowledgement|write|Mint\w*|Burn\w*|Send\w*Coins\w*|SendPacket|RecvPacket|AcknowledgePacket|UpdateClient|CreateClient|UpgradeClient|ToggleClient|RegisterRelayers|Initialize|UpgradeState|CheckHeaderAndUpdateState|ConvertCoin\w*|Execute\w*|Route|handler)$`)
+var effectRe = regexp.MustCompile(`(^|\.)(Set[A-Z]\w*|set[A-Z]\w*|delete[A-Z]\w*|Delete[A-Z]\w*|CallPacket|CallEVM\w*|WriteAcknowledgement|write|Mint\w*|Burn\w*|Send\w*Coins\w*|SendPacket|RecvPacket|AcknowledgePacket|UpdateClient|CreateClient|UpgradeClient|ToggleClient|RegisterRelayers|Initialize|UpgradeState|CheckHeaderAndUpdateState|ConvertCoin\w*|Execute\w*|Route|handler|Validate|ValidateBasic)$`)
 
 func src(fset *token.FileSet, n ast.Node) string {
 	var b bytes.Buffer
